@@ -2,6 +2,8 @@
 
 from __future__ import annotations
 
+from ..vloop import texc
+
 import asyncio
 from typing import Any
 
@@ -29,7 +31,7 @@ from .c24 import make_cemi
 TITLE = "connection lifecycle"
 
 HB_OPTS = ["hb-ok", "hb-error(E_CONNECTION_ID)", "hb-no-answer"]
-CONN_OPTS = ["connect-ok", "connect-refused", "connect-no-answer"]
+CONN_OPTS = ["connect-ok", "connect-refused", "connect-no-answer", "connect-ok+immediate-server-disconnect"]
 DISC_OPTS = ["disconnect-response", "no-disconnect-response"]
 ACK_OPTS = ["ack-ok", "no-ack"]
 # events the environment may inject at a quiescent point (option 0 = let time pass to the next timer)
@@ -72,7 +74,10 @@ class SecureGw:
         return out
 
 
-def make(kind: str, auto_reconnect: bool, steps: int, iter_injection: bool):
+def make(kind: str, auto_reconnect: bool, steps: int, iter_injection: bool, family: str = ""):
+    """family '' = a well-behaved gateway to start with; 'lost' = the session starts with a server disconnect (free), so the
+    deviation budget is spent on what happens during and after the reconnect; 'silent' = the gateway stops answering right
+    after the tunnel is up (free): heartbeat failure, reconnect attempts and the user's reactions are explored in depth."""
     tcp = kind in ("tcp", "secure")
 
     def scenario(ch: Chooser) -> list[tuple[str, str]]:
@@ -88,28 +93,43 @@ def make(kind: str, auto_reconnect: bool, steps: int, iter_injection: bool):
             gw: Any = SecureGw(loop) if kind == "secure" else Gateway(loop)
             st: dict[str, Any] = {"next_channel": 7, "log": [], "connects": 0, "last_channel": None}
 
+            mode: dict[str, int] = {"connect": 0, "heartbeat": 0, "disconnect": 0, "ack": 0}
+            if family == "silent":
+                mode.update({"connect": 2, "heartbeat": 2, "disconnect": 1, "ack": 1})
+
+            def gateway_choice(kind: str, n: int) -> int:
+                """The gateway keeps behaving as it last did for free; a CHANGE of its behaviour costs one deviation
+                (so 'stops answering heartbeats' is one deviation, not four)."""
+                cur = mode[kind]
+                order = [cur] + [o for o in range(n) if o != cur]
+                c = order[ch.choose(kind, n)]
+                mode[kind] = c
+                return c
+
             def handler(body: Any) -> None:
                 now = loop.time()
                 if isinstance(body, ConnectRequest):
-                    c = 0 if st["connects"] == 0 else ch.choose("connect", len(CONN_OPTS))
+                    c = 0 if st["connects"] == 0 else gateway_choice("connect", len(CONN_OPTS))
                     st["connects"] += 1
                     st["log"].append((now, "ConnectRequest", CONN_OPTS[c]))
-                    if c == 0:
+                    if c in (0, 3):
                         chan = st["next_channel"]
                         st["next_channel"] += 1
                         st["last_channel"] = chan
                         gw.send(gw.connect_response(chan, tcp=tcp))
+                        if c == 3:
+                            gw.send(DisconnectRequest(chan))
                     elif c == 1:
                         gw.send(gw.connect_response(0, status=ErrorCode.E_NO_MORE_CONNECTIONS, tcp=tcp))
                 elif isinstance(body, ConnectionStateRequest):
-                    c = ch.choose("heartbeat", len(HB_OPTS))
+                    c = gateway_choice("heartbeat", len(HB_OPTS))
                     st["log"].append((now, "ConnectionStateRequest", HB_OPTS[c]))
                     if c == 0:
                         gw.send(ConnectionStateResponse(body.communication_channel_id))
                     elif c == 1:
                         gw.send(ConnectionStateResponse(body.communication_channel_id, ErrorCode.E_CONNECTION_ID))
                 elif isinstance(body, DisconnectRequest):
-                    c = ch.choose("disconnect", len(DISC_OPTS))
+                    c = gateway_choice("disconnect", len(DISC_OPTS))
                     st["log"].append((now, "DisconnectRequest", body.communication_channel_id, DISC_OPTS[c]))
                     if c == 0:
                         gw.send(DisconnectResponse(body.communication_channel_id))
@@ -117,7 +137,7 @@ def make(kind: str, auto_reconnect: bool, steps: int, iter_injection: bool):
                     st["log"].append((now, "TunnellingRequest", body.communication_channel_id, body.sequence_counter))
                     if tcp:
                         return
-                    c = ch.choose("ack", len(ACK_OPTS))
+                    c = gateway_choice("ack", len(ACK_OPTS))
                     if c == 0:
                         gw.send(TunnellingAck(body.communication_channel_id, body.sequence_counter))
                 elif isinstance(body, (TunnellingAck, DisconnectResponse)):
@@ -139,7 +159,7 @@ def make(kind: str, auto_reconnect: bool, steps: int, iter_injection: bool):
                 tunnel = UDPTunnel(xknx, lambda raw: None, gateway_ip=GW_ADDR[0], gateway_port=GW_ADDR[1], local_ip="192.168.1.2", auto_reconnect=auto_reconnect, auto_reconnect_wait=3)
             t0 = w.spawn(tunnel.connect(), name="harness-connect")
             loop.settle()
-            if not (t0.done() and t0.exception() is None):
+            if not (t0.done() and texc(t0) is None):
                 return [("harness:connect-failed", repr(t0))]
             harness_tasks: list[asyncio.Task[Any]] = [t0]
             user: dict[str, Any] = {"disconnected_at": None, "disconnect_called": False, "sends": 0, "frames_at_disconnect": None}
@@ -225,6 +245,8 @@ def make(kind: str, auto_reconnect: bool, steps: int, iter_injection: bool):
                         if c:
                             inject(opts[c])
 
+            if family == "lost":
+                inject("server-disconnect(own-channel)")
             for step in range(steps):
                 settle_with_injection()
                 check_invariants("quiescent")
@@ -232,6 +254,8 @@ def make(kind: str, auto_reconnect: bool, steps: int, iter_injection: bool):
                 ch.state((xknx.connection_manager.state.name, tunnel.communication_channel is not None, reconnect_tasks(), user["disconnect_called"], len(loop.live_tasks())))
                 if user["disconnect_called"]:
                     opts = ["next-timer"]
+                elif family == "silent":
+                    opts = ["next-timer", "user-disconnect", "user-send"] + (["transport-lost"] if tcp else [])
                 else:
                     opts = [e for e in Q_EVENTS if (e != "transport-lost" or tcp) and (e != "out-of-order-frame" or not tcp)]
                 c = ch.choose("q", len(opts)) if len(opts) > 1 else 0
@@ -339,16 +363,16 @@ def routing_case(seq: tuple[int, ...], secure: bool) -> list[tuple[str, str]]:
                     if not t.done():
                         viols.append(("routing-connect-hangs", f"trace={trace}"))
                         break
-                    if t.exception() is None:
+                    if texc(t) is None:
                         established = True
                     else:
                         established = False
                         if not fail["on"]:
-                            viols.append((f"routing-connect-raises:{type(t.exception()).__name__}", f"{t.exception()!r}; trace={trace}"))
+                            viols.append((f"routing-connect-raises:{type(texc(t)).__name__}", f"{texc(t)!r}; trace={trace}"))
                 elif ev == "disconnect":
                     t = w.spawn(r.disconnect(), name="harness-disconnect")
                     loop.settle()
-                    if not t.done() or t.exception() is not None:
+                    if not t.done() or texc(t) is not None:
                         viols.append(("routing-disconnect-fails", f"{t!r}; trace={trace}"))
                     established = False
                 elif ev == "send":
@@ -437,8 +461,8 @@ def run(ctx: Ctx) -> None:
     steps = 7 if ctx.thorough else 6
     ctx.rule = (
         f"real UDPTunnel / TCPTunnel / SecureTunnel (full session handshake against the simulated secure server; auto-reconnect on/off) connected to a simulated gateway; at each of {steps} quiescent points the environment lets time pass or injects one of "
-        f"{Q_EVENTS[1:]}; the gateway answers heartbeat {HB_OPTS}, reconnect {CONN_OPTS}, disconnect {DISC_OPTS}, tunnelling {ACK_OPTS}; a second scenario family additionally injects "
-        f"{I_EVENTS[1:]} BETWEEN two loop iterations (non-quiescent); every schedule with <= {bound} deviations is executed. Oracle at every iteration boundary: <=1 task in _reconnect, state-change "
+        f"{Q_EVENTS[1:]}; the gateway answers heartbeat {HB_OPTS}, reconnect {CONN_OPTS}, disconnect {DISC_OPTS}, tunnelling {ACK_OPTS}; (a CHANGE of a gateway behaviour costs one deviation, it then persists for free); a second scenario family additionally injects "
+        f"{I_EVENTS[1:]} BETWEEN two loop iterations (non-quiescent); every schedule with <= {bound} deviations is executed; two more families spend the budget later in the session: one starts with a server disconnect (reconnect in progress from the first step), one with a gateway that has gone silent (14-16 steps through heartbeat failure and reconnect attempts, user send/disconnect at every point). Oracle at every iteration boundary: <=1 task in _reconnect, state-change "
         "callbacks never repeat a state and agree; at quiescent points CONNECTED => channel and transport open; after disconnect() returned: no frame sent, no tunnel task alive, state DISCONNECTED. "
         f"Plus Routing and SecureRouting: ALL sequences of length <= 4 (thorough 5) over {R_EVENTS}: state CONNECTED exactly while the multicast connection is established, callbacks consistent, nothing sent and no task alive while disconnected"
     )
@@ -448,6 +472,9 @@ def run(ctx: Ctx) -> None:
         for ar in (True, False):
             explore(ctx, __name__, "tunnel", (kind, ar, steps, False), bound=bound)
             explore(ctx, __name__, "tunnel", (kind, ar, 3, True), bound=bound)
+            if ar:
+                explore(ctx, __name__, "tunnel", (kind, ar, 4, True, "lost"), bound=bound)
+            explore(ctx, __name__, "tunnel", (kind, ar, 16 if ctx.thorough else 14, False, "silent"), bound=min(bound, 2))
     rdepth = 5 if ctx.thorough else 4
     ctx.bounds["routing_sequence_depth"] = rdepth
     ctx.pmap(routing_worker, [(k, 32, rdepth) for k in range(32)])
